@@ -855,3 +855,44 @@ func (g *gen) randomCode() string {
 	g.count(code)
 	return runLine(g.cfg(), g.gas(), code, g.input())
 }
+
+// nested: an outer program that computes, STATICCALLs a second account holding a computational
+// program, then looks at the flag, the return data and its own memory (search mode only).
+func (g *gen) nested() string {
+	p := &prog{}
+	s := &sim{}
+	for i := 0; i < 1+g.r.Intn(6); i++ {
+		g.instr(p, s, g.r.Chance(1, 2))
+	}
+	// retSize retOff inSize inOff addr gas
+	p.push(big.NewInt(int64(g.r.Pick(0, 1, 31, 32, 33, 64, 100))))
+	p.push(g.small[g.r.Intn(len(g.small)-4)])
+	p.push(big.NewInt(int64(g.r.Pick(0, 1, 32, 33, 64, 96))))
+	p.push(g.small[g.r.Intn(len(g.small)-4)])
+	p.op(0x73)
+	p.op(calleeAddr.Bytes()...)
+	p.op(0x63, 0x0f, 0xff, 0xff, 0xff, 0xfa)
+	s.depth++
+	p.op(RETURNDATASIZE)
+	s.depth++
+	if g.r.Chance(2, 3) {
+		p.pushU(uint64(g.r.Pick(0, 1, 32, 64)))
+		p.pushU(uint64(g.r.Pick(0, 0, 1, 32)))
+		p.pushU(uint64(g.r.Pick(0, 64, 128, 200)))
+		p.op(RETURNDATACOPY)
+	}
+	for i := 0; i < g.r.Intn(5); i++ {
+		g.instr(p, s, true)
+	}
+	p.dump(min(s.depth, 4), false)
+	p.link()
+	var q *prog
+	var in []byte
+	if g.r.Chance(1, 2) {
+		q, in = g.straight()
+	} else {
+		q, in = g.memory()
+	}
+	q.link()
+	return fmt.Sprintf("run2 %d %d %s %s %s", g.cfg(), g.gas(), hx.Hex(p.b), hx.Hex(q.b), hx.Hex(in))
+}
